@@ -191,8 +191,7 @@ Definition sx_decoded (r : res pv) : sexp :=
   end.
 
 Definition flags (t : tree) : sexp :=
-  SList [of_bool (rep t); of_bool (gap_lineno t); of_bool (gap_filepath t); of_bool (gap_memberkey t);
-         of_bool (gap_doc t); of_bool (gap_expr t); of_bool (has_docstring t)].
+  SList [of_bool (rep t); of_bool (gap_doc t); of_bool (gap_expr t); of_bool (has_docstring t)].
 
 Definition run_tree (t : tree) : sexp :=
   let j := enc_min t in
